@@ -111,6 +111,7 @@ def glen : Stmt → Option Label → List BS → Nat
   | .loop .do_ _ _ body, lab, sh => 1 + glen body none (.loop lab :: sh) + 3
   | .loop .for_ _ _ body, lab, sh => 3 + glen body none (.loop lab :: sh) + 2
   | .loop .forin _ _ _, _, _ => 0
+  | .loop .forlet _ _ _, _, _ => 0
   | .forOf _ _, _, _ => 0
   | .lbl l s, _, sh => if isLoop s then glen s (some l) sh else glen s none (.label l :: sh)
   | .sw _ _ _ _, _, _ => 0
@@ -177,6 +178,7 @@ def gen : Stmt → Nat → Option Label → List BI → Nat → List Instr
       ++ gen body id none (.loop lab e contPc :: ctx) (start + 2)
       ++ [.cntInc id, .jump (CS.rel start (contPc + 1))]
   | .loop .forin _ _ _, _, _, _, _ => []
+  | .loop .forlet _ _ _, _, _, _, _ => []
   | .forOf _ _, _, _, _, _ => []
   | .lbl l s, cur, _, ctx, pc =>
     if isLoop s then gen s cur (some l) ctx pc
@@ -233,7 +235,7 @@ def stage1 : Stmt → Bool
   | .tryS _ b hasC c hasF f =>
     (hasC || hasF) && stage1 b && (if hasC then stage1 c else c == .skip)
       && (if hasF then stage1 f && retFree f && (firstBranch (flatten f)).isNone else f == .skip)
-  | .loop k id _ body => k != .forin && stage1 body && !(ids body).contains id
+  | .loop k id _ body => k != .forin && k != .forlet && stage1 body && !(ids body).contains id
   | .forOf _ _ => false
   | .lbl _ s => stage1 s && (isLoop s || !isLbl s)
   | .sw _ _ _ _ => false
